@@ -6,9 +6,9 @@ LEVEL = "model_checking"
 
 def run(ctx):
     consts = {"MaxIn": 1, "MaxOut": 2, "MaxTurns": 2} if ctx.quick else {"MaxIn": 1, "MaxOut": 2, "MaxTurns": 3}
-    cov = p_pipeline.run_family(ctx, "C02", "c02", consts)
+    cov = p_pipeline.run_family(ctx, "C02", "c02", consts, extra_scripts=p_pipeline.directed_c02())
     consts2 = {'MaxIn': 1, 'MaxOut': 2, 'MaxTurns': 3} if ctx.quick else {'MaxIn': 1, 'MaxOut': 3, 'MaxTurns': 4}
-    cov2 = p_pipeline.run_family(ctx, "C02", "c02v2", consts2)
+    cov2 = p_pipeline.run_family(ctx, "C02", "c02v2", consts2, extra_scripts=p_pipeline.directed_c02v2())
     cov = p_pipeline.merge_cov(cov, cov2)
     cov["rule"] = ("Colang 1.0: " + "every script of family c02: 1..%d output rails x per-turn verdict vectors over accept/reject/rewrite x message kinds "
                    "(predefined / LLM-generated) x dialog rails on/off x exceptions on/off x 0..1 input rails x 2..%d turns (every turn may be "
